@@ -70,8 +70,8 @@ class C13(Prop):
                   "Tools with no reference function (esl-ssdraw, -alimap, -construct, -histplot, -mixdchlet) are covered by the search only; esl-alimerge --small and inputs with '~' columns or annotation "
                   "beyond names/rows/RF likewise; esl-reformat --id_map by a python monitor. The --small modes are modelled line by line (Miniapps/Small.lean) and compared exactly; esl-alistat --small is predicted from the exact residue count "
                   "(the tool sums fractional per-column counts in binary64 and rounds to nearest since edf1c28). esl-shuffle -w follows the roll range regenerated from esl_randomseq.c (Shuffle/WinParams.lean, shared with C18). "
-                  "Round 6: five repairs of defects found through this check landed in /repo (esl-alistat --small nres truncation edf1c28; directory as input file 5d94071; RegurgitatePfam #=GS lookup before parse 682375e; "
-                  "esl-reformat --small inverted #=GR/SS tests 2415140; esl_rsq_*ShuffleKmers scratch allocation b700765); their witnesses are regression cases. "
+                  "Round 6: six repairs of defects found through this check landed in /repo (esl-alistat --small nres truncation edf1c28; directory as input file 5d94071; RegurgitatePfam #=GS lookup before parse 682375e; "
+                  "esl-reformat --small inverted #=GR/SS tests 2415140; esl_rsq_*ShuffleKmers scratch allocation b700765; --small tools on interleaved Stockholm 6d1c4fc); their witnesses are regression cases. "
                   "The 16 deaths recorded at the start of round 4 and one more found while modelling esl-alimask -p were repaired in /repo (18 patches proposed by this builder in all); their witnesses run "
                   "as regression cases, as do five more found in round 4 by the new references and by the thorough tier once every tool was back in the seed-dependent "
                   "stream (Clustal writer on zero columns fc170bb, esl_sq_Copy #=GR markup b033cd2, esl-compalign -p 6402139, esl-alimanip --c-mx b282134, "
